@@ -1,5 +1,5 @@
 (* C19 — executable side of the correspondence check (pub/sub half; the indexer half is in
-   ExecSearch.v and re-exported from here).  Depends on Query.v / Model.v only.
+   ExecSearch.v (transactions) and ExecBlock.v (blocks), both re-exported from here).  Depends on Query.v / Model.v only.
 
    Cases written by harness/overlay/libs/pubsub/verif_c19_pubsub_test.go:
    * CMatch  one query against one event map: the real Query.Matches verdict.
@@ -30,6 +30,7 @@ From Coq Require Import String List ZArith NArith Bool Arith.
 From TM Require Import Common.Hex.
 From TM Require Export C19.Query C19.Model.
 From TM Require Export C19.ExecSearch.
+From TM Require Export C19.ExecBlock.
 Import ListNotations.
 
 Definition mism (b : bool) (code : N) : verdict := if b then V_ok else V_mismatch code.
